@@ -67,9 +67,9 @@ def stylise(rng, desc, ctx=None):
     choices = [sd for sd in SPECIAL_DEFAULTS if sd[0] != {"zero": "false", "false": "zero"}[desc["zero"]]]
     for i, f in enumerate(desc["funcs"]):
         multi = len(f["outputs"]) > 1
-        is_const = terms.const_of(f["name"])[0]
+        is_const = terms.const_of(f["name"])[0] or terms.seq_of(f["name"]) is not None
         style = rng.choice(STYLES)
-        if style == "class" and (multi or is_const):      # a class call returns the instance: one non-constant output only
+        if style == "class" and (multi or is_const):      # a class call returns the instance: one uninterpreted output only
             style = rng.choice(["instance", "method", "def"])
         if style == "dictpicker" and not multi:
             style = rng.choice(["lambda", "kwonly", "partial_pos"])
@@ -100,7 +100,21 @@ def stylise(rng, desc, ctx=None):
 
 # ------------------------------------------------------------------------------------------------ callables
 def _impl_for(name, outputs, log, as_dict=False):
+    """the body shared by every style: the same interpretation of the function NAME as `terms.make_func` (a constant for
+    `terms.const_of(name)`, a tuple / list / 1-D object ndarray of the two projections of the free term for `terms.seq_of(name)`)"""
     is_const, const = terms.const_of(name)
+    seq_kind = terms.seq_of(name)
+
+    def shaped(base):
+        if seq_kind is not None:
+            pair = [Term("proj", (base, (0,))), Term("proj", (base, (1,)))]
+            if seq_kind == "ndarray":
+                import numpy as np
+                a = np.empty(2, dtype=object)
+                a[0], a[1] = pair
+                return a
+            return tuple(pair) if seq_kind == "tuple" else pair
+        return const if is_const else base
 
     def _impl(kw):
         kw_frozen = sorted((k, terms.freeze(v)) for k, v in kw.items())
@@ -108,11 +122,11 @@ def _impl_for(name, outputs, log, as_dict=False):
         kw_enc = [[k, terms.enc(v)] for k, v in kw_frozen]
         log.add(name, kw_enc, "call")
         if len(outputs) == 1:
-            r = const if is_const else t
+            r = shaped(t)
         elif as_dict:
-            r = {o: (const if is_const else Term("pick", (t, o))) for o in outputs}
+            r = {o: shaped(Term("pick", (t, o))) for o in outputs}
         else:
-            r = tuple(const if is_const else Term("pick", (t, o)) for o in outputs)
+            r = tuple(shaped(Term("pick", (t, o))) for o in outputs)
         log.add(name, kw_enc, "done")
         return r
     return _impl
